@@ -27,6 +27,7 @@ from asphalt.core import (
     ComponentStartError,
     Context,
     NoCurrentContext,
+    ResourceConflict,
     ResourceNotFound,
     add_resource,
     add_resource_factory,
@@ -46,7 +47,13 @@ class SimTimeout(TimeoutError):
     """A component's own TimeoutError (e.g. a connect timeout) - not a start-up timeout."""
 
 
-FAIL_CLASSES = {"SimError": SimError, "SimLookup": SimLookup, "SimTimeout": SimTimeout}
+def _group1(msg: str) -> BaseException:
+    """What a component whose own task group had one failing subtask raises: a group with
+    exactly one member.  It is *the group* that the component raised."""
+    return ExceptionGroup(msg, [SimError(msg + " (member)")])
+
+
+FAIL_CLASSES = {"SimError": SimError, "SimLookup": SimLookup, "SimTimeout": SimTimeout, "group1": _group1}
 
 NAME = "components"
 PROPS = ("C05", "C06", "C07", "C14", "C02", "C12", "C18")
@@ -334,6 +341,14 @@ class H:
                 inst.add_component(c["alias"], **kw)
             else:
                 inst.add_component(c["alias"], type_form(c, tf), **kw)
+            if hard.get("dup_attempt"):
+                # a second declaration under the same alias is refused - and leaves no trace
+                try:
+                    inst.add_component(c["alias"], compreg.Decoy, refused=True)
+                except ValueError:
+                    sim.probe("duplicate_alias_refused")
+                else:
+                    sim.log("note", what="duplicate_alias_accepted", path=path, alias=c["alias"])
         if n.get("fail_init"):
             e = FAIL_CLASSES.get(n["fail_init"], SimError)(f"init {path}")
             e.tag = f"F:{path}:creating"  # type: ignore[attr-defined]
@@ -379,6 +394,18 @@ class H:
                 await self.childctx(path, phase)
             elif op == "sub":
                 await self.sub(a[1], path, phase)
+            elif op == "late_add":
+                # declaring a child once start-up is under way is refused (the whole
+                # hierarchy exists before any prepare()/start() runs)
+                inst = self.instances.get(path)
+                try:
+                    inst.add_component(f"late{self.ndecoy}", compreg.Decoy)
+                except RuntimeError:
+                    sim.log("late_add", path=path, phase=phase, out="refused")
+                else:
+                    sim.log("late_add", path=path, phase=phase, out="accepted")
+            elif op == "conflict_handled":
+                self.conflict_handled(a[1], path, phase)
             elif op == "stall":
                 sim.stall(a[1])
             elif op == "fail":
@@ -400,6 +427,30 @@ class H:
                 e.tag = f"F:{path}:{phase}"  # type: ignore[attr-defined]
                 sim.log("fail", path=path, phase=phase, tag=e.tag)  # type: ignore[attr-defined]
                 raise e
+
+    def conflict_handled(self, spec: dict, path: str, phase: str) -> None:
+        """A publication that is rejected half-way and handled by the component: two types,
+        the second of which is taken under that name (by this very component, a moment
+        ago).  It must leave no trace: nothing registered under the first type, no teardown
+        callback, no event - the regular publication of that type follows."""
+        sim = self.sim
+        t_conf = RT[len(RT) - 2]
+        name = spec["name"]
+        try:
+            add_resource(self.val(f"pre_{spec['rid']}"), name, [t_conf])
+        except ResourceConflict:
+            pass  # an earlier prelude of this context already holds it
+        rid = spec["rid"]
+
+        def rogue() -> None:
+            sim.log("td_run", td=f"rogue_{rid}")
+
+        try:
+            add_resource(self.val(f"bad_{rid}"), name, [RT[spec["t"]], t_conf], teardown_callback=rogue)
+        except ResourceConflict:
+            sim.probe("handled_conflict")
+        else:
+            sim.log("note", what="conflict_not_raised", rid=rid)
 
     def pub(self, spec: dict, path: str, phase: str) -> None:
         sim = self.sim
@@ -605,6 +656,10 @@ def build_config(plan: dict) -> tuple[Any, dict]:
     sub = ext_tree(tree)
     if sub or plan.get("empty_components"):
         cfg["components"] = sub
+    bad = plan.get("bad_child_cfg")
+    if bad is not None:
+        # a child whose configuration is neither None nor a mapping (and falsy at that)
+        cfg.setdefault("components", {})[bad["alias"]] = copy.deepcopy(bad["value"])
     root_type = type_form(tree, tree.get("root_tf", "class"))
     return root_type, cfg
 
@@ -1016,6 +1071,23 @@ def oracle(sim: Sim, plan: dict) -> list[dict]:
             v("C05.return", "no_end", "start_component neither returned nor raised")
             continue
         end_seq = sc_end[0]
+        for r in tr:
+            if r[4] == "note" and r[5].get("what") == "duplicate_alias_accepted":
+                v("C14.tree", "duplicate_alias_accepted", f"a second add_component({r[5]['alias']!r}) in the constructor of {r[5]['path'] or '(root)'} was accepted")
+            if r[4] == "late_add" and r[5]["out"] != "refused":
+                v("C05.eager", "late_add_component_accepted", f"add_component() called from {r[5]['phase']}() of {r[5]['path'] or '(root)'} was accepted: the hierarchy must be complete before any prepare()/start() runs")
+                v("C14.tree", "late_add_component_accepted", f"add_component() called from {r[5]['phase']}() of {r[5]['path'] or '(root)'} was accepted and silently dropped")
+        if oplan.get("bad_child_cfg") is not None:
+            # an invalid child configuration: nothing may be created or started
+            bad_ = oplan["bad_child_cfg"]
+            if sc_end[4] != "sc_raise" or sc_end[5].get("cls") != "TypeError":
+                v("C14.tree", "invalid_child_config_accepted", f"child {bad_['alias']!r} configured as {bad_['value']!r} (neither None nor a mapping): start_component gave {sc_end[4]} {sc_end[5]}")
+            if any(r[4] == "phase_begin" for r in tr):
+                v("C14.tree", "invalid_child_config_started", f"components were started although child {bad_['alias']!r} is configured as {bad_['value']!r}")
+            cfg_ = next((r for r in tr if r[4] == "cfg_after"), None)
+            if cfg_ is not None and (not cfg_[5]["equal"] or not cfg_[5]["same_objects"]):
+                v("C14.config_intact", "mutated_after_invalid", f"configuration object changed: {cfg_[5]}")
+            continue
 
         # ---------------------------------------------------------------- C14 / init
         inits = [r for r in tr if r[4] == "init"]
@@ -1147,6 +1219,14 @@ def oracle(sim: Sim, plan: dict) -> list[dict]:
             expect = "tie"
         else:
             expect = "return"
+        n_fail = sum(1 for _p, n_ in nodes.items() for ph_ in ("prepare", "start") for a_ in n_.get(ph_) or () if a_[0] == "fail") + sum(
+            1 for _p, n_ in nodes.items() if n_.get("fail_init")
+        )
+        if n_fail >= 2 and plan.get("outer_cancel") is None:
+            # several components fail (possibly at the same instant): which error comes out,
+            # or a group of them, is open - but start_component must fail, at that instant
+            mf = model["fail"]
+            expect = "must_fail" if (mf is not None and (not tau or mf < tau) and not model["has_stall"]) else "any"
         if any(r[4] == "sub_end" and r[5].get("mixed") for r in tr):
             # a nested start-up failed at the very instant the outer one ended for another
             # reason: two simultaneous failures, either of which (or a group) may come out
@@ -1186,6 +1266,14 @@ def oracle(sim: Sim, plan: dict) -> list[dict]:
         elif expect == "tie":
             if sc_end[4] == "sc_raise" and sc_end[5].get("cls") != "TimeoutError":
                 v("C07.timeout", "tie_other", f"unexpected outcome at a timeout tie: {sc_end[5]}")
+        elif expect == "must_fail":
+            if sc_end[4] != "sc_raise":
+                v("C05.return", "returned_despite_failures", f"{n_fail} components fail, yet start_component gave {sc_end[4]} {sc_end[5]}")
+                v("C07.error", "failures_swallowed", f"{n_fail} components fail, yet start_component gave {sc_end[4]} {sc_end[5]}")
+            elif sc_end[5].get("cls") == "TimeoutError":
+                v("C07.timeout", "spurious_timeout", f"{n_fail} components fail at t0+{model['fail']} (timeout {tau}) but start_component raised TimeoutError")
+            elif exact_time and abs((sc_end[5]["t"] - t0) - model["fail"]) > 1e-9:
+                v("C07.prompt", "instant", f"first failure struck at t0+{model['fail']} but start_component raised at t0+{sc_end[5]['t'] - t0}")
         elif expect == "fail":
             fpath, fphase = fail_plan  # type: ignore[misc]
             d = sc_end[5]
@@ -1621,6 +1709,8 @@ class G:
         if style in ("hard", "both"):
             tf = pick(rng, {"class": 3, "ref": 1.5, "ep": 1.5, "alias": 1.5})
             hard = {"tf": tf, "kw": rkw(rng)}
+            if rng.random() < 0.15:
+                hard["dup_attempt"] = True
             alias_form = tf == "alias"
             if style == "both":
                 ext = {"tf": None, "kw": rkw(rng)}
@@ -1719,6 +1809,8 @@ class G:
                     if self.prop == "C06" and rng.random() < 0.5:
                         # publish late, so that waiters are usually already parked
                         acts.append(["p", rng.choice((0, 1, 2, 3)), rng.choice((0.0, 0.25, 0.5, 1.0, 2.0))])
+                    if not spec.get("fac") and rng.random() < 0.12:
+                        acts.append(["conflict_handled", {"rid": spec["rid"], "t": spec["t"], "name": spec["name"]}])
                     acts.append(["pub", spec])
                     fn = final_name(n, spec, phase)
                     here.append((spec["t"], fn, bool(spec.get("fac")), spec.get("fdur")))
@@ -1918,7 +2010,7 @@ def gen(rng: random.Random, tier: str, prop: str) -> dict:
         path, n = rng.choice(nodes)
         phases = ["creating"] + [ph for ph in ("prepare", "start") if n.get(ph) is not None]
         ph = rng.choice(phases)
-        cls = rng.choice(("SimError", "SimLookup", "SimTimeout", "conflict"))
+        cls = rng.choice(("SimError", "SimLookup", "SimTimeout", "conflict", "group1"))
         if ph == "creating" and cls == "conflict":
             cls = "SimTimeout"
         if ph == "creating":
@@ -1953,6 +2045,26 @@ def gen(rng: random.Random, tier: str, prop: str) -> dict:
     else:
         if rng.random() < 0.5:
             plan["timeout"] = rng.choice((None, 20, 1000))
+    if prop in ("C05", "C07") and r >= fail_p + timeout_p and rng.random() < 0.08:
+        # two components fail, often at the very same instant
+        cands = [(p, n, ph) for p, n in nodes for ph in ("prepare", "start") if n.get(ph) is not None]
+        if len(cands) >= 2:
+            for p_, n_, ph_ in rng.sample(cands, 2):
+                pos = rng.randint(0, min(1, len(n_[ph_])))
+                n_[ph_].insert(pos, ["fail", rng.choice(("SimError", "SimLookup"))])
+                del n_[ph_][pos + 1 :]
+            plan.setdefault("timeout", rng.choice((None, 20, 1000)))
+    if rng.random() < 0.08:
+        cands = [(p, n, ph) for p, n in nodes for ph in ("prepare", "start") if n.get(ph) is not None]
+        if cands:
+            p_, n_, ph_ = rng.choice(cands)
+            n_[ph_].insert(0, ["late_add"])
+    if prop == "C14" and r >= fail_p + timeout_p and rng.random() < 0.08:
+        kids = [c["alias"] for c in tree["children"] if c.get("hard")]
+        plan["bad_child_cfg"] = {
+            "alias": rng.choice(kids) if kids and rng.random() < 0.5 else "vkdecoy",
+            "value": rng.choice((False, 0, "", [])),
+        }
     if prop == "C07" and rng.random() < 0.3:
         _add_subs(plan, nodes, rng, may_fail=r >= fail_p)
     if prop == "C07" and rng.random() < 0.15:
